@@ -45,11 +45,11 @@ type placeholder struct {
 	Num         int  `json:"num"`
 }
 
-func (p *Parser) deconstructPacket(rv reflect.Value, numBuffers *int) (buffers [][]byte, err error) {
-	return p.deconstructValue(rv, numBuffers)
+func (p *Parser) deconstructPacket(rv reflect.Value, numBuffers *int, undo *[]func()) (buffers [][]byte, err error) {
+	return p.deconstructValue(rv, numBuffers, undo)
 }
 
-func (p *Parser) deconstructValue(rv reflect.Value, numBuffers *int) (buffers [][]byte, err error) {
+func (p *Parser) deconstructValue(rv reflect.Value, numBuffers *int, undo *[]func()) (buffers [][]byte, err error) {
 	k := rv.Kind()
 	original := rv
 	if k == reflect.Interface || k == reflect.Ptr {
@@ -72,7 +72,7 @@ func (p *Parser) deconstructValue(rv reflect.Value, numBuffers *int) (buffers []
 			sl := rv.Len()
 			for i := 0; i < sl; i++ {
 				el := rv.Index(i)
-				b, err := p.deconstructValue(el, numBuffers)
+				b, err := p.deconstructValue(el, numBuffers, undo)
 				if err != nil {
 					return nil, err
 				}
@@ -90,7 +90,7 @@ func (p *Parser) deconstructValue(rv reflect.Value, numBuffers *int) (buffers []
 				return nil, errBinaryCannotBeAPtr
 			}
 
-			buf, err := p.deconstructBinaryValue(rv, original, numBuffers, nil)
+			buf, err := p.deconstructBinaryValue(rv, original, numBuffers, nil, undo)
 			if err != nil {
 				return nil, err
 			}
@@ -103,18 +103,21 @@ func (p *Parser) deconstructValue(rv reflect.Value, numBuffers *int) (buffers []
 			ne := reflect.New(rv.Type())
 			el := ne.Elem()
 			el.Set(rv)
+			old := reflect.New(original.Type()).Elem()
+			old.Set(original)
+			*undo = append(*undo, func() { original.Set(old) })
 			original.Set(ne)
 			rv = el
 		}
 
-		b, err := p.deconstructStruct(rv, numBuffers)
+		b, err := p.deconstructStruct(rv, numBuffers, undo)
 		if err != nil {
 			return nil, err
 		}
 		buffers = append(buffers, b...)
 
 	case reflect.Map:
-		b, err := p.deconstructMap(rv, numBuffers)
+		b, err := p.deconstructMap(rv, numBuffers, undo)
 		if err != nil {
 			return nil, err
 		}
@@ -129,6 +132,7 @@ func (p *Parser) deconstructBinaryValue(
 	original reflect.Value,
 	numBuffers *int,
 	customSetter func([]byte) error,
+	undo *[]func(),
 ) (buf []byte, err error) {
 	if rv.CanInterface() {
 		sb, ok := rv.Interface().(socketIOBinary)
@@ -152,11 +156,15 @@ func (p *Parser) deconstructBinaryValue(
 					return nil, err
 				}
 			} else if rv.CanSet() {
+				*undo = append(*undo, func() { rv.SetBytes(buf) })
 				rv.SetBytes([]byte(pBuf))
 			} else {
 				if !original.CanSet() {
 					return nil, &ValueError{err: errNonSettableValue, Value: rv}
 				}
+				old := reflect.New(original.Type()).Elem()
+				old.Set(original)
+				*undo = append(*undo, func() { original.Set(old) })
 
 				n := reflect.MakeSlice(rv.Type(), len(pBuf), len(pBuf))
 				b := n.Bytes()
@@ -175,7 +183,7 @@ func (p *Parser) deconstructBinaryValue(
 	return
 }
 
-func (p *Parser) deconstructStruct(rv reflect.Value, numBuffers *int) (buffers [][]byte, err error) {
+func (p *Parser) deconstructStruct(rv reflect.Value, numBuffers *int, undo *[]func()) (buffers [][]byte, err error) {
 	nf := rv.NumField()
 
 	for i := 0; i < nf; i++ {
@@ -191,7 +199,7 @@ func (p *Parser) deconstructStruct(rv reflect.Value, numBuffers *int) (buffers [
 			continue
 		}
 
-		b, err := p.deconstructValue(fv, numBuffers)
+		b, err := p.deconstructValue(fv, numBuffers, undo)
 		if err != nil {
 			return nil, err
 		}
@@ -201,7 +209,7 @@ func (p *Parser) deconstructStruct(rv reflect.Value, numBuffers *int) (buffers [
 	return
 }
 
-func (p *Parser) deconstructMap(rv reflect.Value, numBuffers *int) (buffers [][]byte, err error) {
+func (p *Parser) deconstructMap(rv reflect.Value, numBuffers *int, undo *[]func()) (buffers [][]byte, err error) {
 	iter := rv.MapRange()
 	for iter.Next() {
 		mk := iter.Key()
@@ -225,11 +233,12 @@ func (p *Parser) deconstructMap(rv reflect.Value, numBuffers *int) (buffers [][]
 
 				x := reflect.New(mv.Type())
 				x.Elem().Set(n)
+				*undo = append(*undo, func() { rv.SetMapIndex(mk, original) })
 				rv.SetMapIndex(mk, x)
 				return nil
 			}
 
-			buf, err := p.deconstructBinaryValue(mv, original, numBuffers, set)
+			buf, err := p.deconstructBinaryValue(mv, original, numBuffers, set, undo)
 			if err != nil {
 				return nil, err
 			}
@@ -237,7 +246,7 @@ func (p *Parser) deconstructMap(rv reflect.Value, numBuffers *int) (buffers [][]
 			continue
 		}
 
-		b, err := p.deconstructValue(mv, numBuffers)
+		b, err := p.deconstructValue(mv, numBuffers, undo)
 		if err != nil {
 			return nil, err
 		}
